@@ -383,9 +383,8 @@ def history_oracle(dump):
     for o, rv in sorted(revs.items()):
         last = rv[-1]
         out['load ' + o] = 'err:KeyError' if last[1] is None else (last[1], last[0])
-        out['getTid ' + o] = last[0]      # FileStorage.getTid reads the header of the newest record
-        if last[1] is None:
-            out['getTid ' + o] = 'err:KeyError'
+        # (getTid is not predicted: for a back-pointer record whose chain ends in an un-creation
+        #  FileStorage.getTid answers the tid although load raises — a C04 quirk, not a copy matter)
         for th in tids:
             for b in (th, '%016x' % (int(th, 16) + 1)):
                 before = [x for x in rv if x[0] < b]
